@@ -17,7 +17,7 @@ import vlib, btree
 LEVEL = "model_checking"
 MANIFEST = dict(cat=LEVEL, ref="DESIGN.md 3.8, 6 (C29)",
     tech="TLA+ predicate BTreeShape!WellFormed (nine named clauses: page kinds / pointers, slot area, cells inside, cells disjoint, keys increasing, separators bound subtrees, uniform leaf depth, leaf chain = in-order leaves, no page shared) shown falsifiable clause by clause by TLC on seeded broken trees, and evaluated by TLC (Trace_BTreeShape, ndJsonDeserialize of the harness dump) on abstract trees projected from the real pages after the steps of TLC-generated behaviours of BTreeMap.tla",
-    text="after every step of the C28 behaviours (every transition to depth 2/3 over a 6-key universe from seven preloaded trees, unsplittable cells, random walks of 240/120 steps with leaf and interior splits, emptied leaves, three hint modes) the projected tree is well formed: TLC decides it on a stratified subset of the steps (every step of every second (quick) / every (thorough) walk in one hint mode, every 12th/5th step of the other walk replays, the last step of 1 in 12 / 1 in 4 enumerated cases; identical trees are evaluated once) and on every tree the Rust mirror of the predicate rejects; the mirror covers all steps and agrees with TLC on all dumped trees",
+    text="after every step of the C28 behaviours (every transition to depth 2/3 over a 6-key universe from seven preloaded trees, every sequence of three inserts into a tree with a full root interior page (interior splits at every child position), unsplittable cells, random walks of 240/120 steps with leaf and interior splits, emptied leaves, three hint modes) the projected tree is well formed: TLC decides it on a stratified subset of the steps (every step of every second (quick) / every (thorough) walk in one hint mode, every 12th/5th step of the other walk replays, the last step of 1 in 12 / 1 in 4 enumerated cases; identical trees are evaluated once) and on every tree the Rust mirror of the predicate rejects; the mirror covers all steps and agrees with TLC on all dumped trees",
     note="the projection (about 150 lines of Rust over the public node accessors) is trusted; only pages reachable from the root by child or next_leaf pointers are judged; dead cell space left by deletes is not a violation (cells of live slots must be inside the cell area and disjoint)")
 
 CLAUSES = ["KindsOk", "SlotAreaOk", "CellsInside", "CellsDisjoint", "KeysIncreasing", "SeparatorsBound", "UniformDepth", "LeafChain", "NoSharing"]
